@@ -280,7 +280,7 @@ func init() {
 		Assumptions: []string{"the first parse is the reference for 'what was put in' (parser fidelity is C14's)"},
 		NumCases: func(tier string) int {
 			if tier == "thorough" {
-				return 20000
+				return 80000
 			}
 			return 800
 		},
